@@ -1048,14 +1048,16 @@ def _mujoco_contact_forces(ctx):
     #  formulas are covered by the assembly part on one simulator's quantities)
     names = ["HumanoidStandup"] if ctx.quick else ["HumanoidStandup", "Humanoid"]
     k = _key()
-    for name in names:
-        opts = {}
+    # ... and with the contact-force block switched OFF in the observation: the option only trims the observation,
+    # the contact / impact cost of the reward is still charged (Gymnasium v5), so the forces must still be computed
+    configs = [(n, {}) for n in names] + [(n, {"include_cfrc_ext_in_observation": False}) for n in names]
+    for name, opts in configs:
         e, g = _make_pair(name, opts)
         mjm = g.model
         dims = (int(mjm.nq), int(mjm.nv), int(mjm.nbody))
         initial = eqx.filter_jit(e.initial)
         transition = eqx.filter_jit(e.transition)
-        pre = f"mujoco:{name}"
+        pre = f"mujoco:{name}" + ("[no-cfrc-in-obs]" if opts else "")
         g.reset(seed=0)
         ck = "reward_impact" if name == "HumanoidStandup" else "reward_contact"
         for r in range(ctx.budget(2, 6)):
@@ -1071,8 +1073,8 @@ def _mujoco_contact_forces(ctx):
                 lobs1 = _np(e.observation(s1, key=k))
                 lcomps, gcomps = _comps(e.transition_info(s, a_l, s1)), _comps(ginfo)
                 p1 = _phys(s1.sim_state)
-                mask = _cfrc_mask(name, opts, len(go), dims)
-                gmax = float(np.abs(go[mask]).max()) if len(mask) else 0.0
+                mask = _cfrc_mask(name, opts, len(go), dims) if not opts else np.zeros(0, dtype=int)
+                gmax = float(np.abs(go[mask]).max()) if len(mask) else (float(np.abs(np.asarray(g.data.cfrc_ext)).max()) if opts else 0.0)
                 agree = float(np.abs(p1["qpos"] - np.asarray(g.data.qpos)).max()) < (1e-5 if ctx.x64 else 1e-3)
                 s = s1
                 if gmax < 1.0 or not agree:
@@ -1080,12 +1082,12 @@ def _mujoco_contact_forces(ctx):
                     continue
                 case = {"env": name, "source": f"reset {r}, step {t}", "qpos": pl_["qpos"], "qvel": pl_["qvel"],
                         "action": action, "largest_contact_force_gymnasium": gmax,
-                        "largest_contact_force_lerax": float(np.abs(lobs1[mask]).max()),
+                        "largest_contact_force_lerax": float(np.abs(lobs1[mask]).max()) if len(mask) else None, "options": opts,
                         "lerax_" + ck: lcomps.get(ck), "gymnasium_" + ck: gcomps.get(ck)}
                 ctx.case(case, True)
                 ctx.count(f"{pre}:contact-forces-compared")
                 tolc = 2e-2 * gmax + 1e-2
-                if float(np.abs(lobs1[mask] - go[mask]).max()) > tolc:
+                if len(mask) and float(np.abs(lobs1[mask] - go[mask]).max()) > tolc:
                     ctx.phi_fail("observation(contact forces)", {**case, "lerax_block": lobs1[mask][:24], "gymnasium_block": go[mask][:24]},
                                  key=f"{pre}:physics:contact_forces_in_observation")
                 elif ck in lcomps and ck in gcomps and abs(lcomps[ck] - gcomps[ck]) > 5e-2 * abs(gcomps[ck]) + 1e-4:
